@@ -117,9 +117,12 @@ def pmap(fn, items, workers=None, chunksize=1):
     if workers <= 1 or len(items) <= 1:
         out = [_call(i) for i in items]
     else:
+        # (an executor, not mp.Pool: when a worker is killed - e.g. by the OOM killer - Pool.map waits for ever,
+        # the executor raises BrokenProcessPool)
+        import concurrent.futures as cf
         ctx = mp.get_context('fork')
-        with ctx.Pool(min(workers, len(items))) as pool:
-            out = pool.map(_call, items, chunksize=chunksize)
+        with cf.ProcessPoolExecutor(min(workers, len(items)), mp_context=ctx) as pool:
+            out = list(pool.map(_call, items, chunksize=chunksize))
     res = []
     for tag, val in out:
         if tag == 'err':
